@@ -5,6 +5,7 @@ import FinamModel.DriverConnect
 import FinamModel.Output
 import FinamModel.DriverTime
 import FinamModel.DriverLink
+import FinamModel.DriverSched
 /-! Line-protocol handlers: one JSON object in, one JSON object out. -/
 namespace Finam.Driver
 open Lean
@@ -33,10 +34,11 @@ def handleC09 (j : Json) : Json :=
 
 def handlers : List (String × (Json → Json)) := [
   ("c19", C19.handle),
+  ("c17", C17.handle), ("c17table", C17.table),
   ("c06", C06.handle),
   ("c09", handleC09),
   ("c08", C08.handle)
-] ++ gridHandlers ++ timeHandlers
+] ++ gridHandlers ++ Sched.handlers ++ timeHandlers
 
 def step (line : String) : String :=
   match Json.parse line with
